@@ -260,7 +260,6 @@ int main(int argc, char** argv)
 {
     static const char* focus = "F-addr: the mutex object (owner id, internal spinlock, waiter queue) + each task's thread_data (state word)";
     static const pmc_spec specs[] = {
-        {"misuse", misuse, 1, 2, 0.05, 0.05, 1, focus, nullptr, nullptr},
         {"mutex_2x1", mutex_tasks<pika::mutex, 2, 1, 3>, 2, 3, 0.45, 0.3, 1, focus, nullptr, nullptr},
         {"mutex_3x1", mutex_tasks<pika::mutex, 3, 1, 4>, 1, 2, 0.1, 0.3, 1, focus, nullptr, nullptr},
         {"mutex_2x2", mutex_tasks<pika::mutex, 2, 2, 3>, 1, 2, 0.1, 0.15, 1, focus, nullptr, nullptr},
@@ -268,6 +267,7 @@ int main(int argc, char** argv)
         {"recursive_mutex_2", recursive_tasks<pika::detail::recursive_mutex_impl<pika::mutex>, 2>, 1, 2, 0.1, 0.1, 1, "F-addr: recursive_mutex_impl<pika::mutex> + thread_data", nullptr, nullptr},
         {"recursive_spin_2", recursive_tasks<pika::detail::recursive_mutex_impl<>, 2>, 1, 2, 0.1, 0.1, 1, "F-addr: recursive_mutex (recursion_count, locking_context, inner mutex) + thread_data", nullptr, nullptr},
         {"spinlock_2x1", mutex_tasks<pika::concurrency::detail::spinlock, 2, 1, 3>, 1, 3, 0.05, 0.05, 1, "F-addr: concurrency::detail::spinlock + thread_data", nullptr, nullptr},
+        {"misuse", misuse, 1, 2, 0.1, 0.05, 1, focus, nullptr, nullptr},
         {"ts_spinlock_2x1", mutex_tasks<pika::detail::spinlock, 2, 1, 3>, 1, 3, 0.05, 0.05, 1, "F-addr: pika::detail::spinlock (thread_support) + thread_data", nullptr, nullptr},
     };
     static const char* assumptions[] = {"sequentially consistent interleavings only", "2 worker threads"};
